@@ -42,7 +42,8 @@ func tText(c context, s []byte) (context, int) {
 		if i < k || i+1 == len(s) {
 			return c, len(s)
 		} else if i+4 <= len(s) && bytes.Equal(commentStart, s[i:i+4]) {
-			return context{state: stateHTMLCmt}, i + 4
+			// A comment does not end the content of the element it is in.
+			return context{state: stateHTMLCmt, element: c.element}, i + 4
 		}
 		i++
 		end := false
@@ -246,7 +247,7 @@ func tBeforeValue(c context, s []byte) (context, int) {
 // tHTMLCmt is the context transition function for stateHTMLCmt.
 func tHTMLCmt(c context, s []byte) (context, int) {
 	if i := bytes.Index(s, commentEnd); i != -1 {
-		return context{}, i + 3
+		return context{element: c.element}, i + 3
 	}
 	return c, len(s)
 }
